@@ -134,11 +134,21 @@ def _retain_removes_only_self(F, body, t):
     return len(pe) == 1 and len(nots) == 1 and not [o for o in others if not Q.callee_is(o, [re.compile(r'Deref>::deref$')])]
 
 
+def _private_helper_only_of(F, fn, reviewed):
+    """fn is a non-public function of yash_executor::task whose every caller is the reviewed function: an operation of the
+    reviewed function that was merely moved into a private helper (the review carries over; R1c / R1d analyse it in place)."""
+    sig = F.fns.get(fn)
+    if sig is None or sig.get('vis') == 'pub' or not fn.startswith(reviewed.rsplit('::', 1)[0] + '::'):
+        return False
+    callers = F.callers_of(lambda names, t: fn in names)
+    return bool(callers) and all(b.root == reviewed for b, blk, t in callers)
+
+
 @RS.rule('C15.R1c', 'K-GUARD', 'a task that has completed is never in the wake queue: Task::wake looks at the future slot before queuing, and the '
          'wake a task issued to itself during its final poll is withdrawn when the poll returns Ready')
 def r1c(cx):
     F = cx.F
-    wb = F.body(WAKE)
+    wb = F.inlined(F.body(WAKE))          # a completion test moved into a private helper (`self.is_complete()`) is seen in place
     cx.fn(wb.fn)
     du = Q.DefUse(wb)
     uses = _field_uses(wb, STATE, 'wake_queue')
@@ -147,7 +157,7 @@ def r1c(cx):
     slot_tests = [(b, t) for b, t in Q.find_calls(wb, [re.compile(r'RefCell::<T>::(try_borrow|try_borrow_mut|borrow)$')])
                   if _projects(_trace_place(du, t['a'][0]) or {}, 'yash_executor::Task', 'future')]
     tested = bool(slot_tests) and all(any(wb.dominates(sb, pb) for sb, _ in slot_tests) for pb, _ in pushes)
-    pb_ = F.body(POLL)
+    pb_ = F.inlined(F.body(POLL))         # the withdrawal moved into a private helper (`self.remove_from_wake_queue()`) is seen in place
     cx.fn(pb_.fn)
     purge = [t for kind, desc, t, blk in _field_uses(pb_, STATE, 'wake_queue') if kind == 'call' and desc == VD + 'retain'
              and _retain_removes_only_self(F, pb_, t)]
@@ -167,7 +177,7 @@ def r1c(cx):
          'borrowed - queues the completed task again')
 def r1d(cx):
     F = cx.F
-    body = F.body(POLL)
+    body = F.inlined(F.body(POLL))        # the withdrawal may live in a private helper of Task: analysed in place
     cx.fn(body.fn)
     purge = [(blk, t) for kind, desc, t, blk in _field_uses(body, STATE, 'wake_queue') if kind == 'call' and desc == VD + 'retain']
     if not purge:
@@ -218,7 +228,8 @@ def r1(cx):
                                  'Executor::step: the woken task is never polled', loc=body.loc(node))
             elif desc in READS:
                 n['read'] += 1
-            elif desc == VD + 'retain' and body.root == POLL and _retain_removes_only_self(F, body, node):
+            elif desc == VD + 'retain' and (body.root == POLL or _private_helper_only_of(F, body.root, POLL)) and \
+                    _retain_removes_only_self(F, body, node):
                 cx.site('%s: the completed task removes ITSELF from the queue (order of the others preserved), decided by C15.R1c' % body.fn)
             else:
                 cx.violation(body.root, 'queue:%s' % desc.split('::')[-1],
